@@ -525,3 +525,46 @@ mod momentum_memory {
         unsafe { assert!(N == 0); }                         // [C17.flat]
     }
 }
+
+/// Numeric lemmas behind the activity rules (C16 / C17): each is a loop-free, full-domain harness (a complete proof).  The Verus unit `agents` uses them as
+/// the axioms of the same names (contracts/agents.vc): a unit draw lies in [0, 1) for EVERY generator output, and a value below 1 is below every threshold >= 1.
+#[cfg(kani)]
+mod float_lemmas {
+    use super::agents::SymRng;
+    use rand::Rng;
+
+    #[kani::proof]
+    fn unit_draw_f64() {
+        let mut r = SymRng;
+        let x: f64 = r.gen();
+        assert!(x >= 0.0);
+        assert!(!(x < 0.0));
+        assert!(x < 1.0);
+    }
+    #[kani::proof]
+    fn unit_draw_f32() {
+        let mut r = SymRng;
+        let x: f32 = r.gen();
+        assert!(x >= 0.0);
+        assert!(!(x < 0.0));
+        assert!(x < 1.0);
+    }
+    #[kani::proof]
+    fn below_one_below_threshold_f64() {
+        let u: f64 = kani::any();
+        let p: f64 = kani::any();
+        if u < 1.0 && 1.0 <= p {
+            assert!(u < p);
+            assert!(!(u >= p));
+        }
+    }
+    #[kani::proof]
+    fn below_one_below_threshold_f32() {
+        let u: f32 = kani::any();
+        let p: f32 = kani::any();
+        if u < 1.0 && 1.0 <= p {
+            assert!(u < p);
+            assert!(!(u >= p));
+        }
+    }
+}
